@@ -114,7 +114,66 @@ class Results:
         return self.obs[name]
 
 
+class _Watchdog(object):
+    """z3 does not always honour its own `timeout` (non-linear integer arithmetic can run for hours inside one check, where no Python signal handler can
+    run either): one daemon thread interrupts the context when a check overruns its budget; the check then answers `unknown`."""
+
+    def __init__(self):
+        self.deadline = None
+        self.thread = None
+
+    def _run(self):
+        while True:
+            time.sleep(1.0)
+            d = self.deadline
+            if d is not None and time.time() > d:
+                self.deadline = None
+                try:
+                    z3.main_ctx().interrupt()
+                except Exception:
+                    pass
+
+    def check(self, solver, budget_s):
+        if self.thread is None:
+            import threading
+            self.thread = threading.Thread(target=self._run, daemon=True)
+            self.thread.start()
+        self.deadline = time.time() + budget_s
+        try:
+            return solver.check()
+        finally:
+            self.deadline = None
+
+
+WATCHDOG = _Watchdog()
+
+
+class _WatchedSolver(object):
+    """z3.Solver whose check() is bounded by the watchdog (everything else is delegated)"""
+
+    def __init__(self, s):
+        self._s = s
+        self._budget = SOLVER_TIMEOUT_MS / 1000.0 + 10
+
+    def set(self, *a, **kw):
+        if a and a[0] == "timeout":
+            self._budget = a[1] / 1000.0 + 10
+        return self._s.set(*a, **kw)
+
+    def check(self, *a):
+        if a:
+            return self._s.check(*a)
+        return WATCHDOG.check(self._s, self._budget)
+
+    def __getattr__(self, name):
+        return getattr(self._s, name)
+
+
 def _mk_solver():
+    return _WatchedSolver(_mk_solver_raw())
+
+
+def _mk_solver_raw():
     s = z3.Solver()
     s.set("timeout", SOLVER_TIMEOUT_MS)
     # e-matching only: quantified relations stay decidable-or-unknown instead of timing out
@@ -152,6 +211,8 @@ class Ctx:
 
     # ---- branching
     def decide(self, cond):
+        if getattr(self, "deadline", None) and time.time() > self.deadline:
+            raise Unsupported("time budget exceeded inside one path (a loop of the code under test that does not end on symbolic input?)")
         cond = z3.simplify(cond)
         if z3.is_true(cond):
             return True
@@ -391,6 +452,7 @@ def explore(fn, export=None, max_paths=200000, max_seconds=None):
     while pending:
         prefix = pending.pop()
         ctx = Ctx(res, prefix, pending)
+        ctx.deadline = (t0 + max_seconds) if max_seconds else None
         Ctx.cur = ctx
         try:
             fn(ctx)
